@@ -325,3 +325,59 @@ def sampleIndexByName (p : Profile) (si : Str) : Option Nat :=
       findIdx (fun t => t.typ == si || t.typ == noInuse) p.sampleType 0
 
 end PV.Graph
+
+/-! ### tagroot / tagleaf pseudo frames (internal/driver/tagroot.go `addLabelNodes`)
+
+String labels only: numeric label values are rendered by `measurement.ScaledLabel` (external); the
+harness uses tag keys that carry string labels only. -/
+namespace PV.Graph
+
+structure TagSt where
+  p : Profile
+  tbl : List ((Str × Str) × Nat)     -- (functionName, fileName) ↦ location id
+  nextLoc : Nat
+  nextFn : Nat
+
+def maxId (ids : List Nat) : Nat := ids.foldl max 0
+
+def internLoc (st : TagSt) (fname file : Str) : TagSt × Nat :=
+  match st.tbl.lookup (fname, file) with
+  | some id => (st, id)
+  | none =>
+    let fn : Function := { id := st.nextFn, name := fname, systemName := [], filename := file, startLine := 0 }
+    let loc : Location := { id := st.nextLoc, mappingID := 0, address := 0,
+                            lines := [{ functionID := st.nextFn, line := 0, column := 0 }], isFolded := false }
+    ({ p := { st.p with functions := st.p.functions ++ [fn], locations := st.p.locations ++ [loc] },
+       tbl := st.tbl ++ [((fname, file), st.nextLoc)], nextLoc := st.nextLoc + 1, nextFn := st.nextFn + 1 },
+     st.nextLoc)
+
+def joinComma : List Str → Str
+  | [] => []
+  | [a] => a
+  | a :: r => a ++ (44 :: joinComma r)
+
+/-- `formatLabelValues` restricted to string labels. -/
+def labelValues (s : Sample) (k : Str) : List Str :=
+  match s.label.lookup k with
+  | some vs => vs
+  | none => []
+
+/-- `makeLabelLocs`: one pseudo location per key, LAST key first. -/
+def makeLabelLocs (st : TagSt) (s : Sample) (keys : List Str) : TagSt × List Nat :=
+  keys.reverse.foldl (fun (acc : TagSt × List Nat) k =>
+    let (st', id) := internLoc acc.1 (joinComma (labelValues s k)) k
+    (st', acc.2 ++ [id])) (st, [])
+
+def tagSample (rootKeys leafKeys : List Str) (acc : TagSt × List Sample) (s : Sample) : TagSt × List Sample :=
+  let (st1, roots) := makeLabelLocs acc.1 s rootKeys
+  let (st2, leaves) := makeLabelLocs st1 s leafKeys
+  if leaves.length + roots.length = 0 then (st2, acc.2 ++ [s])
+  else (st2, acc.2 ++ [{ s with locationIDs := leaves ++ s.locationIDs ++ roots }])
+
+def addLabelNodes (p : Profile) (rootKeys leafKeys : List Str) : Profile :=
+  let st0 : TagSt := { p := p, tbl := [], nextLoc := maxId (p.locations.map (·.id)) + 1,
+                       nextFn := maxId (p.functions.map (·.id)) + 1 }
+  let (st, samples) := p.samples.foldl (tagSample rootKeys leafKeys) (st0, [])
+  { st.p with samples := samples }
+
+end PV.Graph
